@@ -396,6 +396,12 @@ func checkFast(inj inject.Injector, k int, legal [][]reflect.Value, missing, des
 	return evid.Outcome{}
 }
 
+// hidden2 has the unsettable tagged field in front of a settable one.
+type hidden2 struct {
+	private *S2 `inject:""`
+	Public  *S1 `inject:""`
+}
+
 type hidden struct {
 	Public  *S1 `inject:""`
 	private *S2 `inject:""`
@@ -466,6 +472,15 @@ func checkApply(inj inject.Injector, scopes []*mscope, op Op, desc string, class
 		if herr != nil || !legalArg(reflect.ValueOf(h.Public), l1) || h.private != nil || h.Plain != nil {
 			return evid.Fail("apply-hidden", "Apply(hidden): err=%v Public=%v private=%v Plain=%v; %s", herr, h.Public, h.private, h.Plain, desc)
 		}
+	}
+	h2 := &hidden2{}
+	herr2 := inj.Apply(h2)
+	if v1 == "unresolvable" {
+		if herr2 == nil || !strings.Contains(herr2.Error(), tPS1.String()) {
+			return evid.Fail("apply-hidden", "Apply(hidden2) without a *S1: error %v does not name the type; %s", herr2, desc)
+		}
+	} else if herr2 != nil || !legalArg(reflect.ValueOf(h2.Public), l1) || h2.private != nil {
+		return evid.Fail("apply-hidden", "Apply(hidden2): err=%v Public=%v private=%v (the unexported tagged field in front must only be skipped); %s", herr2, h2.Public, h2.private, desc)
 	}
 	return evid.Outcome{}
 }
